@@ -36,9 +36,65 @@ func (r Rng) randomIDList(w Win, hDepth, vDepth int64, n int, sp bool) []ID {
 				continue
 			}
 		}
+		if len(out) > 0 && !noStride && r.Chance(0.07) {
+			if tw, ok := r.strided(w, out[r.Intn(len(out))]); ok {
+				id = tw
+			}
+		}
 		out = append(out, id)
 	}
 	return out
+}
+
+// noStride: set by drivers whose later steps refine the IDs by many levels (histories)
+var noStride bool
+
+// zoomTooBig: a refinement whose indices leave TLC's integers is unrepresentable (skipped, not judged)
+func zoomTooBig(ids []ID, h, v int64) bool {
+	for _, s := range ids {
+		dh, dv := uint(maxI(0, h-s.H)), uint(maxI(0, v-s.V))
+		if dh > 30 || dv > 30 || (abs64(s.X)+1)<<dh >= 1<<29 || (abs64(s.Y)+1)<<dh >= 1<<29 || (abs64(s.F)+1)<<dv >= 1<<29 {
+			return true
+		}
+	}
+	return false
+}
+
+// strided returns b displaced by +-2^j on some of its axes (j = 8 .. 28): voxels whose indices agree
+// in their low bits, the pattern on which masked / packed / hashed keys collide.
+func (r Rng) strided(w Win, b ID) (ID, bool) {
+	realH, realV := w.H0+b.H, w.V0+b.V
+	js := []int64{8, 10, 12, 16, 20, 21, 22, 24, 28}
+	j := js[r.Intn(len(js))]
+	id := b
+	moved := false
+	axes := 1 + r.Intn(7) // non-empty subset of {x, y, f}
+	step := r.Pick(-1, 1) * (int64(1) << uint(j))
+	if axes&1 != 0 && j+2 < realH {
+		id.X += step
+		moved = true
+	}
+	if axes&2 != 0 && j+2 < realH {
+		id.Y += step
+		moved = true
+	}
+	if axes&4 != 0 && j+1 < realV {
+		nv := int64(1) << uint(realV)
+		if rf := w.E(b).F + step; rf >= -nv && rf < nv {
+			id.F += step
+			moved = true
+		}
+	}
+	if !moved {
+		return b, false
+	}
+	if w.Abs {
+		nh := int64(1) << uint(b.H)
+		id.X, id.Y = ((id.X%nh)+nh)%nh, ((id.Y%nh)+nh)%nh
+	} else if rid := w.E(id); rid.Y < 0 || rid.Y >= int64(1)<<uint(realH) {
+		return b, false
+	}
+	return id, true
 }
 
 // relative returns a descendant or the ancestor of b at other zooms (floor).
@@ -180,6 +236,9 @@ func driveZoom(t *Tracer, r Rng, n int) {
 }
 
 func evChangeZoomExt(t *Tracer, w Win, ids []ID, h, v int64) {
+	if zoomTooBig(ids, h, v) {
+		return
+	}
 	real := w.embedExtList(ids)
 	snap := append([]string(nil), real...)
 	o, res := guard(func() (any, error) {
@@ -197,6 +256,9 @@ func evChangeZoomExt(t *Tracer, w Win, ids []ID, h, v int64) {
 }
 
 func evChangeZoomSp(t *Tracer, w Win, ids []ID, z int64) {
+	if zoomTooBig(ids, z, z) {
+		return
+	}
 	real := w.embedSpList(ids)
 	snap := append([]string(nil), real...)
 	o, res := guard(func() (any, error) {
